@@ -10,6 +10,7 @@ import (
 	"net/http"
 	"net/url"
 	"strings"
+	"sync"
 	"syscall"
 	"time"
 
@@ -264,9 +265,17 @@ func NewUpstream(addr string, opt Opt) (_ Upstream, err error) {
 				MaxResponseHeaderBytes: 4 * 1024,
 			}
 		} else {
+			// The http package closes idle connections only. The tracker
+			// closes the others when the upstream is closed.
+			tracker := new(connTracker)
+			addonCloser = tracker
 			t1 := &http.Transport{
 				DialContext: func(ctx context.Context, network, addr string) (net.Conn, error) {
-					return dialer.DialContext(ctx, dialNetworkTcpOrUnix(dialAddr), dialAddr)
+					c, err := dialer.DialContext(ctx, dialNetworkTcpOrUnix(dialAddr), dialAddr)
+					if err != nil {
+						return nil, err
+					}
+					return tracker.track(c)
 				},
 				TLSClientConfig:     opt.TLSConfig,
 				TLSHandshakeTimeout: tlsHandshakeTimeout,
@@ -379,6 +388,53 @@ func (cs multiCloser) Close() error {
 		}
 	}
 	return errors.Join(errs...)
+}
+
+// connTracker remembers open connections. Close closes them all, and every
+// connection that is tracked later.
+type connTracker struct {
+	m      sync.Mutex
+	closed bool
+	conns  map[*trackedConn]struct{}
+}
+
+type trackedConn struct {
+	net.Conn
+	t *connTracker
+}
+
+func (t *connTracker) track(c net.Conn) (net.Conn, error) {
+	t.m.Lock()
+	defer t.m.Unlock()
+	if t.closed {
+		c.Close()
+		return nil, transport.ErrClosedTransport
+	}
+	if t.conns == nil {
+		t.conns = make(map[*trackedConn]struct{})
+	}
+	tc := &trackedConn{Conn: c, t: t}
+	t.conns[tc] = struct{}{}
+	return tc, nil
+}
+
+func (t *connTracker) Close() error {
+	t.m.Lock()
+	t.closed = true
+	conns := t.conns
+	t.conns = nil
+	t.m.Unlock()
+	for c := range conns {
+		c.Conn.Close()
+	}
+	return nil
+}
+
+func (c *trackedConn) Close() error {
+	c.t.m.Lock()
+	delete(c.t.conns, c)
+	c.t.m.Unlock()
+	return c.Conn.Close()
 }
 
 // upstreamWithCloser closes closer after the upstream.
